@@ -404,7 +404,9 @@ int32_t jls_raw_chunk_scan(struct jls_raw_s * self) {
         if ((offset + (int64_t) sz) > offset_end) {
             sz = offset_end - offset;
         }
-        size_t sz_block = sz;
+        if (sz < sizeof(struct jls_chunk_header_s)) {
+            break;  // no room left for a chunk header
+        }
         jls_bk_fread(&self->backend, buffer, (unsigned const) sz);
         while (sz >= sizeof(struct jls_chunk_header_s)) {
             struct jls_chunk_header_s * hdr = (struct jls_chunk_header_s *) b;
@@ -416,7 +418,7 @@ int32_t jls_raw_chunk_scan(struct jls_raw_s * self) {
             b += HEADER_ALIGN;
             offset += HEADER_ALIGN;
         }
-        offset += sz_block - sizeof(struct jls_chunk_header_s) + 8;
+        // offset already points at the first position that was not checked: continue there
     }
     return JLS_ERROR_NOT_FOUND;
 }
